@@ -488,7 +488,7 @@ func simplifyReplay(p *Plan) []*Plan {
 func init() {
 	register(&Profile{
 		ID: "C04", Name: "replay", Level: "exploration",
-		Rule: "histories of 4-12 actions over {start flow (real SP request ID becomes outstanding), IdP answers flow k with InResponseTo at the Response and at each of 1-2 confirmations in {matching, another flow's, previous flow's, empty/absent, near-miss}, deliver response r (again) through xml/post/artifact with the caller's outstanding set in {live, empty, only this, only others, {\"\"}, {\"\"}+live, near-miss IDs, all ever issued}, retire flow k}; on the artifact path a simulated resolver sees the ArtifactResolve the SP sends and answers this / the previous / another / no / a near-miss request ID; AllowIDPInitiated and a custom request-ID validator are per-run knobs; non-trivial = some delivery must be refused; distinct = distinct abstract log; for the live set the library is handed the application's own long-lived slice (the oracle keeps its own copy of what was meant); the resolver may mint the inner response with the ArtifactResolve ID it has just seen; 0-2 confirmations",
+		Rule: "histories of 4-12 actions over {start flow (real SP request ID becomes outstanding), IdP answers flow k with InResponseTo at the Response and at each of 1-2 confirmations in {matching, another flow's, previous flow's, empty/absent, near-miss}, deliver response r (again) through xml/post/artifact with the caller's outstanding set in {live, empty, only this, only others, {\"\"}, {\"\"}+live, near-miss IDs, all ever issued}, retire flow k}; on the artifact path a simulated resolver sees the ArtifactResolve the SP sends and answers this / the previous / another / no / a near-miss request ID; AllowIDPInitiated and a custom request-ID validator are per-run knobs; non-trivial = some delivery must be refused; distinct = distinct abstract log; for the live set the library is handed the application's own long-lived slice (the oracle keeps its own copy of what was meant); the resolver may mint the inner response with the ArtifactResolve ID it has just seen; 0-2 confirmations; answers may be unsigned Responses without a Destination attribute and may carry holder-of-key / sender-vouches / unknown-method confirmations (each confirmation's InResponseTo counts whatever its method)",
 		Gen:  genReplay, Exec: execReplay, Simplify: simplifyReplay,
 		RunsQuick: 6000, RunsThorough: 600000,
 		Assumptions: []string{"with AllowIDPInitiated or a custom validator the statement imposes nothing on InResponseTo; only acceptance of otherwise valid responses (and artifact correlation) is asserted there", "an absent InResponseTo attribute and an empty one are the same thing on the wire"},
